@@ -127,6 +127,26 @@ STATEFUL = [
     (None, "SELECT x[1:2], INTERVAL '1' DAY + d, DATE '2020-01-01', {'a': 1} FROM t"),
 ]
 
+# Type-coercion sensitive projections (string vs temporal, integer vs decimal): what annotate_types answers for them
+# depends on the coercion tables, which dialect modules extend at import time.
+TYPED = [
+    "SELECT 'x' + CAST(d AS DATE) AS a, CAST(s AS VARCHAR) + CAST(d AS TIMESTAMP) AS b FROM t",
+    "SELECT [CAST(s AS VARCHAR), CAST(d AS DATE)] AS arr, GREATEST('a', CAST(d AS DATE)) AS g FROM t",
+    "SELECT CAST(i AS BIGINT) + CAST(x AS DECIMAL) AS c, CAST(i AS INT) / CAST(f AS DOUBLE) AS q FROM t",
+    "SELECT COALESCE(CAST(s AS TEXT), CAST(ts AS TIMESTAMPTZ)) AS c1, CASE WHEN p THEN CAST(s AS VARCHAR) ELSE CAST(tm AS TIME) END AS c2 FROM t",
+    "SELECT CAST(a AS TINYINT) + CAST(b AS SMALLINT) AS s, CAST(a AS FLOAT) * CAST(b AS BIGINT) AS m, CAST(a AS DATE) - CAST(b AS DATE) AS dd FROM t",
+    "SELECT IF(p, CAST(s AS CHAR), CAST(d AS DATETIME)) AS i, NULLIF(CAST(s AS NVARCHAR), CAST(d AS DATE)) AS n FROM t",
+]
+
+# Words that are keywords only in some context, used as plain identifiers: observes parser tables polluted by earlier calls.
+SOFT_KEYWORDS = [
+    "SELECT prior, level, start, connect FROM t",
+    "SELECT key, value, type, name, path, index FROM t",
+    "SELECT offset, ordinality, format, first, last, next FROM t",
+    "SELECT a AS prior, b AS filter, c AS window_, d AS recursive FROM t WHERE prior > 1",
+    "SELECT t.prior, t.current, t.row, t.rows, t.range FROM t",
+]
+
 FAILING = [
     (None, "SELECT * FROM"),
     (None, "SELECT 'unterminated"),
@@ -134,6 +154,16 @@ FAILING = [
     (None, "SELECT a FROM t WHERE"),
     ("bigquery", "SELECT `unterminated FROM t"),
     (None, "CASE WHEN"),
+    (None, "SELECT a FROM t CONNECT BY PRIOR a = ("),
+    (None, "SELECT a FROM t START WITH a = 1 CONNECT BY PRIOR"),
+    ("snowflake", "SELECT a FROM t MATCH_RECOGNIZE (PARTITION BY"),
+    ("bigquery", "FROM x |> AGGREGATE SUM("),
+    (None, "SELECT CAST(a AS STRUCT<"),
+    (None, "SELECT a FROM t PIVOT (SUM(b) FOR"),
+    (None, "WITH RECURSIVE c AS (SELECT 1 UNION ALL SELECT"),
+    (None, "SELECT x -> (y, z"),
+    (None, "CREATE TABLE t (a INT, CONSTRAINT"),
+    (None, "MERGE INTO t USING s ON t.a = s.a WHEN MATCHED THEN"),
 ]
 
 _cache = {}
